@@ -5,7 +5,16 @@ use crate::uset::*;
 use std::hash::{Hash, Hasher};
 use tinyset::{Fits64, Set64, SetUsize};
 
-pub trait Elem: Fits64 + Copy + Ord + Eq + std::fmt::Debug + Send + Sync + 'static {
+#[cfg(any(feature = "serde", feature = "compactserde"))]
+pub trait MaybeSerde: serde::Serialize + serde::de::DeserializeOwned {}
+#[cfg(any(feature = "serde", feature = "compactserde"))]
+impl<T: serde::Serialize + serde::de::DeserializeOwned> MaybeSerde for T {}
+#[cfg(not(any(feature = "serde", feature = "compactserde")))]
+pub trait MaybeSerde {}
+#[cfg(not(any(feature = "serde", feature = "compactserde")))]
+impl<T> MaybeSerde for T {}
+
+pub trait Elem: Fits64 + Copy + Ord + Eq + std::fmt::Debug + Send + Sync + MaybeSerde + 'static {
     const NAME: &'static str;
     const BITS: u32;
     fn from_raw(v: u64) -> Self;
@@ -238,11 +247,16 @@ impl<T: Elem> USet for W64<T> {
     }
     #[cfg(any(feature = "serde", feature = "compactserde"))]
     fn to_json(&self) -> String {
-        String::new()
+        serde_json::to_string(&self.0).unwrap()
     }
     #[cfg(any(feature = "serde", feature = "compactserde"))]
-    fn from_json(_s: &str) -> Result<Self, String> {
-        Err("typed".into())
+    fn from_json(s: &str) -> Result<Self, String> {
+        serde_json::from_str(s).map(W64).map_err(|e| e.to_string())
+    }
+    #[cfg(any(feature = "serde", feature = "compactserde"))]
+    fn json_of_items(items: &[u64]) -> Option<String> {
+        let v: Vec<T> = items.iter().map(|&x| T::from_raw(x)).collect();
+        Some(serde_json::to_string(&v).unwrap())
     }
 }
 
@@ -521,14 +535,20 @@ pub fn run(args: &[String]) -> i32 {
                 parts.push(p);
             }};
         }
-        go!(W64<i32>, "Set64_i32");
-        go!(W64<u8>, "Set64_u8");
-        go!(W64<i64>, "Set64_i64");
-        go!(W64<char>, "Set64_char");
+        let unsigned_only = args[2] == "typedinline" || args[2] == "typeddense";
+        if !unsigned_only {
+            go!(W64<i32>, "Set64_i32");
+            go!(W64<u8>, "Set64_u8");
+            go!(W64<i64>, "Set64_i64");
+            go!(W64<char>, "Set64_char");
+            go!(W64<i8>, "Set64_i8");
+            go!(W64<u16>, "Set64_u16");
+            go!(W64<isize>, "Set64_isize");
+        }
         go!(W64<u64>, "Set64_u64");
-        go!(W64<i8>, "Set64_i8");
-        go!(W64<u16>, "Set64_u16");
-        go!(W64<isize>, "Set64_isize");
+        if args[2] == "typeddense" {
+            go!(W64<u32>, "Set64_u32");
+        }
         go!(WUsize, "SetUsize");
     }
     // concatenate the parts into the requested trace file
